@@ -102,6 +102,21 @@ TStep ==
                       IF o.k = "Steps" THEN o.steps ELSE -1,
                       IF o.n > HeaderBytes(c) /\ (o.n - HeaderBytes(c)) % BlockBytes(c) = 0
                       THEN (o.n - HeaderBytes(c)) \div BlockBytes(c) ELSE -1)
+       [] tr.kind = "bigcuts" ->
+          /\ Chk(tr, 1, "reference encoder produced the size the layout states", tr.nbytes, tr.expbytes)
+          /\ \A p \in 1..Len(tr.obs) : LET o == tr.obs[p] IN
+            /\ ChkT(tr, p, "reader did not terminate on the prefix of " \o ToString(o.n) \o " bytes", o.k # "Hang")
+            /\ ChkT(tr, p, "opening the prefix of " \o ToString(o.n) \o " bytes (mode " \o o.mode \o ") changed the file size", o.size_after = o.n)
+            /\ (o.k = "Steps" =>
+                  /\ ChkT(tr, p, "prefix of " \o ToString(o.n) \o " bytes (mode " \o o.mode \o "): more steps exposed than are complete",
+                          o.steps >= 0 /\ o.steps <= CompleteStepsA(c, o.n))
+                  /\ \A q \in 1..Len(o.samples) : LET x == o.samples[q] IN
+                       ChkT(tr, p, "prefix of " \o ToString(o.n) \o " bytes (mode " \o o.mode \o "): exposed data differ from the full file",
+                            x[7] /\ x[6] = Token(x[1], x[2], x[3], x[4], x[5])))
+            /\ Chk(tr, p, "prefix of " \o ToString(o.n) \o " bytes (mode " \o o.mode \o "): outcome differs from the reader model",
+                   IF o.k = "Steps" THEN o.steps ELSE -1,
+                   IF o.n > UamivHeaderBytesA(c) /\ (o.n - UamivHeaderBytesA(c)) % UamivBlockBytesA(c) = 0
+                   THEN (o.n - UamivHeaderBytesA(c)) \div UamivBlockBytesA(c) ELSE -1)
   /\ TrAccept(tr)
 TSpec == TInit /\ [][TStep]_tvars
 =================================================================================
